@@ -8,6 +8,12 @@ import (
 )
 
 func init() {
+	vk.Register("debug.sf", func(p vbase.Params, r *vbase.Result) {
+		c := RunSelectiveFetch(Rulesets[int(p.Seed)%2], "eddsa", vbase.NewRng(p.Seed, "dbg"), r, func(m *Monitors) { m.Commit = true })
+		for _, v := range c.Mon.Viol {
+			fmt.Println("VIOL", v.Sig, v.Msg)
+		}
+	})
 	vk.Register("debug.hl", func(p vbase.Params, r *vbase.Result) {
 		RunHiddenLock(int(p.Seed%2), Rulesets[0], "eddsa", vbase.NewRng(p.Seed, "dbg"), r, func(m *Monitors) { m.Commit = true })
 	})
@@ -134,6 +140,14 @@ func simCampaign(prop string, enable func(*Monitors), clients bool) vk.Campaign 
 			}
 		}
 		if !clients {
+			for k, rs := range Rulesets[:2] {
+				if p.Mine(500 + k) {
+					if c := RunSelectiveFetch(rs, "eddsa", vbase.NewRng(p.Seed, "selective-fetch", rs), r, enable); c != nil {
+						finish(c, c.Cfg.String()+" "+c.Cfg.Label, -2000-k, "directed")
+						r.Obs("selective_fetch_"+rs+"_commits_r1", int64(len(c.Mon.commits[0])))
+					}
+				}
+			}
 			hi := 0
 			for _, rs := range Rulesets[:2] {
 				for variant := 0; variant < 2; variant++ {
